@@ -22,6 +22,7 @@ mod c11;
 mod c14;
 mod c17;
 mod c19;
+mod c20;
 mod jsmini;
 mod c15;
 mod gen;
@@ -234,6 +235,8 @@ pub fn eval(out: &mut Out, req: &str) -> String {
         c15::eval(out, op, &args)
     } else if op.starts_with("bind.") || op.starts_with("mo.") || op.starts_with("ts.") {
         c19::eval(out, op, &args)
+    } else if op.starts_with("rnd.") {
+        c20::eval(out, op, &args)
     } else if op.starts_with("js.") {
         c17::eval(out, op, &args)
     } else if op.starts_with("chk.") {
@@ -315,6 +318,7 @@ fn main() {
         "C14" => c14::run(&mut ctx),
         "C17" => c17::run(&mut ctx),
         "C19" => c19::run(&mut ctx),
+        "C20" => c20::run(&mut ctx),
         "C15" => c15::run(&mut ctx),
         "C16" => c16::run(&mut ctx),
         _ => {
